@@ -139,6 +139,10 @@ static void load_real(void) {
 }
 
 /* ---- helpers ---- */
+/* hide a pointer from the optimiser: libc declares many path parameters nonnull, and GCC would
+   drop our NULL checks (Rust's std probes statx(0, NULL, ...) on purpose) */
+static inline const char *launder(const char *p) { __asm__ volatile("" : "+r"(p)); return p; }
+
 static uint64_t splitmix64(void) {
     uint64_t z = (rng_state += 0x9e3779b97f4a7c15ull);
     z = (z ^ (z >> 30)) * 0xbf58476d1ce4e5b9ull;
@@ -189,6 +193,7 @@ static void lexnorm(const char *in, char *out) {
 /* make absolute (not collapsed) into abs; collapsed form into norm.
    returns 1 if under the world root */
 static int resolve(int dirfd, const char *path, char *abs, char *norm) {
+    path = launder(path);
     if (!path) { abs[0] = norm[0] = 0; return 0; }
     if (path[0] == '/') {
         snprintf(abs, PATH_MAX, "%s", path);
@@ -399,7 +404,7 @@ static int do_open(int which, int dirfd, const char *path, int flags, mode_t mod
         if (!under && is_config_probe(norm)) { errno = ENOENT; return -1; }
         if (under) {
             cnt_ops++;
-            if (pre_fault("open", rel(abs), is_mut_flags(flags), &after) < 0) {
+            if (pre_fault("open", rel(norm), is_mut_flags(flags), &after) < 0) {
                 logf_("%lu open %s flags=%#x -> -1 errno=%d\n", seq++, rel(abs), flags, errno);
                 return -1;
             }
@@ -416,7 +421,7 @@ static int do_open(int which, int dirfd, const char *path, int flags, mode_t mod
         int e = errno;
         logf_("%lu open %s flags=%#x%s -> %d errno=%d\n", seq++, rel(abs), flags,
               is_mut_flags(flags) ? " MUT" : "", fd < 0 ? -1 : 3, fd < 0 ? e : 0);
-        if (fd >= 0) set_fdpath(fd, abs);
+        if (fd >= 0) set_fdpath(fd, norm);
         if (after) crash_now();
         errno = e;
     }
@@ -611,7 +616,7 @@ static int do_rename(int which, int od, const char *o, int nd, const char *n, un
         if (under) {
             cnt_ops++;
             char both[2 * PATH_MAX + 4];
-            snprintf(both, sizeof both, "%s", rel(oa));
+            snprintf(both, sizeof both, "%s", rel(on_));
             if (pre_fault("rename", both, 1, &after) < 0) {
                 logf_("%lu rename %s -> %s -> -1 errno=%d\n", seq++, rel(oa), rel(na), errno);
                 return -1;
@@ -643,7 +648,7 @@ int renameat2(int od, const char *o, int nd, const char *n, unsigned fl) { ENTER
         under = resolve(dirfd_expr, patharg, abs, norm);                                            \
         if (under) {                                                                                \
             cnt_ops++;                                                                              \
-            if (pre_fault(opname, rel(abs), 1, &after) < 0) {                                       \
+            if (pre_fault(opname, rel(norm), 1, &after) < 0) {                                       \
                 logf_("%lu %s %s -> -1 errno=%d\n", seq++, opname, rel(abs), errno);                \
                 return -1;                                                                          \
             }                                                                                       \
@@ -708,12 +713,12 @@ int fdatasync(int fd) {
 #define STAT_PRE(dirfd_expr, patharg)                                                               \
     char abs[PATH_MAX], norm[PATH_MAX];                                                             \
     int under = 0, after = 0;                                                                       \
-    if (ON && patharg && patharg[0]) {                                                              \
+    if (ON && launder(patharg) && launder(patharg)[0]) {                                            \
         under = resolve(dirfd_expr, patharg, abs, norm);                                            \
         if (!under && is_config_probe(norm)) { errno = ENOENT; return -1; }                         \
         if (under) {                                                                                \
             cnt_ops++;                                                                              \
-            if (pre_fault("stat", rel(abs), 0, &after) < 0) {                                       \
+            if (pre_fault("stat", rel(norm), 0, &after) < 0) {                                       \
                 logf_("%lu stat %s -> -1 errno=%d\n", seq++, rel(abs), errno);                      \
                 return -1;                                                                          \
             }                                                                                       \
@@ -745,11 +750,11 @@ char *realpath(const char *p, char *out) {
     ENTER();
     char abs[PATH_MAX], norm[PATH_MAX];
     int under = 0;
-    if (ON && p) {
+    if (ON && launder(p)) {
         under = resolve(AT_FDCWD, p, abs, norm);
         if (under) {
             cnt_ops++;
-            struct rule *r = match_rule("realpath", rel(abs), 0);
+            struct rule *r = match_rule("realpath", rel(norm), 0);
             if (r && r->action == A_ERRNO) {
                 r->fired++;
                 logf_("%lu realpath %s -> NULL errno=%ld FAULT\n", seq++, rel(abs), r->a1);
